@@ -82,7 +82,14 @@ _re_error = regex.compile(r'''
         |
             '(?>(?>''|[^\?!*\/\[\]':"])+)'
         )!
-    )?(?P<name>\#(?>NULL!|DIV/0!|VALUE!|REF!|NUM!|NAME\?|N/A))\s*
+    )?(?P<name>\#(?>NULL!|DIV/0!|VALUE!|REF!|NUM!|NAME\?|N/A))
+    (?>(?<=\#REF!)(?>  # What is left of a reference to a deleted sheet.
+        \$?[A-Z]+\$?[0-9]+(?>:\$?[A-Z]+\$?[0-9]+)?
+    |
+        \$?[A-Z]+:\$?[A-Z]+
+    |
+        \$?[0-9]+:\$?[0-9]+
+    ))?\s*
 ''', regex.IGNORECASE | regex.X | regex.DOTALL)
 
 
